@@ -5,7 +5,7 @@
 EXTENDS MVStore, Json, TLC
 
 CONSTANTS N,          \* history length
-          BatchMode,  \* 0: single ops only; 1: batches only as last op; 2: batches anywhere
+          BatchMode,  \* 0: single ops only; 1: batches only as last op; 2: batches anywhere; 3: see below
           MaxBA, MaxBD \* bounds on the number of additions / deletions in one batch
 
 Keys == {"k1", "k2"}
@@ -23,8 +23,16 @@ Apply(s, o) == IF o.op = "add" THEN Add(s, o.k, o.v)
                ELSE ExecBatch(s, o.adds, o.dels)
 Exp(s) == [k \in Keys |-> Get(s, k)]
 
+\* mode 3: pre-populate with one additions-only batch, then one deletions-only batch (two values only, so that
+\* longer batches stay enumerable): covers repeated, interleaved keys inside a batch of deletions
+SmallPairs == Keys \X {"a", "b"}
+SmallSeqs(n) == UNION {[1..m -> SmallPairs] : m \in 1..n}
+AddOnly == {[op |-> "batch", adds |-> a, dels |-> <<>>] : a \in SmallSeqs(MaxBA)}
+DelOnly == {[op |-> "batch", adds |-> <<>>, dels |-> d] : d \in SmallSeqs(MaxBD)}
+
 Ops == IF BatchMode = 0 THEN Singles
        ELSE IF BatchMode = 1 THEN (IF Len(hist) = N - 1 THEN Batches ELSE Singles)
+       ELSE IF BatchMode = 3 THEN (IF Len(hist) = 0 THEN AddOnly ELSE DelOnly)
        ELSE Singles \cup Batches
 
 Next == /\ Len(hist) < N
